@@ -37,7 +37,7 @@ def required_buckets(tier):
     for p in PREF:
         req.append(f'C06/prefix_from/{p or "-"}')
         req.append(f'C06/prefix_to/{p or "-"}')
-    req += ['C06/config/default', 'C06/config/2.5_50', 'C06/config/inf_inf', 'C06/rejected/non_enzyme_in_U']
+    req += ['C06/config/default', 'C06/config/2.5_50', 'C06/config/inf_inf', 'C06/rejected/non_enzyme_in_U', 'C06/api_history']
     return req
 
 
@@ -53,14 +53,32 @@ def plan(tier, seed):
             j['params']['cfg'] = 'default' if not cfg else f"{cfg['default_solid_density']}_{cfg['default_enzyme_density']}"
         # distinct case indices per configuration
         jobs += js
-    off = 0
+    jobs += shard('api', 16 if tier == 'quick' else 400, 4 if tier == 'quick' else 16)
     for j in jobs:
-        pass
+        if j['kind'] == 'api':
+            j['params']['cfg'] = 'default'
     return jobs
 
 
 def run_job(job):
-    return run_cases(job, table)
+    return run_cases(job, api if job['kind'] == 'api' else table)
+
+
+def api(rng, case, idx):
+    """Ordinary API histories with the CONV monitor on: every conversion the library makes internally (transfers,
+    solutions, observers) is compared with the factor table too."""
+    from pv.gen import World
+    from pv.props.c04 import extra_ops
+    from pv.monitors import M
+    M.bucket('C06/api_history')
+    w = World(rng, case)
+    w.check_aliasing = False
+    w.populate()
+    for _ in range(rng.randint(10, 25)):
+        if rng.random() < 0.3:
+            extra_ops(w)
+        else:
+            w.history_step()
 
 
 def table(rng, case, idx):
